@@ -91,7 +91,16 @@ def run(ctx) -> None:
     p = ctx.p
     ctx.rule("NUM", "derived transfer function of the position-table loop equals 1-based line/column numbering", floor=3)
     ctx.rule("FLOW", "error_message uses the start offset of the node's text range in the table of the same atok; nested errors recurse", floor=4)
+    ctx.rule("ORIGIN", "an error raised because of the type of one operand is attached to that operand's node, not to a sibling operand", floor=25)
+    _check_origin(ctx)
     init = p.func("common:LinenoColumner.__init__")
+    splits = [c for c in ast.walk(init.node) if isinstance(c, ast.Call) and isinstance(c.func, ast.Attribute) and c.func.attr == "splitlines"]
+    if splits:
+        ctx.fail("NUM", init, splits[0],
+                 "the position table is built from str.splitlines(): it also breaks lines at form feed, vertical tab, FS/GS/RS, NEL, U+2028 and U+2029, "
+                 "which the Python parser does not treat as line ends: every location after such a character is reported on a later line",
+                 construct="position table")
+        return
     loops = [n for n in init.node.body if isinstance(n, ast.For)]
     ctx.require_anchor(len(loops) == 1 and isinstance(loops[0].target, ast.Name), "LinenoColumner.__init__ has one character loop")
     loop = loops[0]
@@ -218,3 +227,54 @@ def run(ctx) -> None:
         ctx.ok("FLOW", em, rec[0], what="underlying errors rendered by the same function")
     else:
         ctx.fail("FLOW", em, em.node, "nested errors are not rendered through error_message (their locations are lost)", construct="recursion")
+
+
+def _check_origin(ctx) -> None:
+    """``v = self.transform(node.<b>)`` ... ``if <test of v>: Error(node.<a>.original_node, ...)``: the innermost test
+    that mentions such variables decides which operand is offending; the error node must be that operand (or the whole
+    ``node``), not a sibling operand."""
+    p = ctx.p
+    for f in p.all_functions():
+        if f.cls is None or not f.name.startswith(("transform_", "visit_")):
+            continue
+        defs: Dict[str, set] = {}
+        for n in walk_function_body(f.node):
+            if isinstance(n, ast.Assign) and len(n.targets) == 1 and isinstance(n.targets[0], ast.Name) and isinstance(n.value, ast.Call) \
+                    and dotted_of(n.value.func) in ("self.transform", "self.visit") and n.value.args:
+                d = dotted_of(n.value.args[0])
+                if d is not None and d.startswith("node."):
+                    defs.setdefault(n.targets[0].id, set()).add(d)
+        if not defs:
+            continue
+        parents = {}
+        for n in ast.walk(f.node):
+            for c in ast.iter_child_nodes(n):
+                parents[id(c)] = n
+        for n in walk_function_body(f.node):
+            if not (isinstance(n, ast.Call) and dotted_of(n.func) == "Error" and n.args):
+                continue
+            a = dotted_of(n.args[0])
+            if a is None or not a.endswith(".original_node"):
+                continue
+            subj = a[: -len(".original_node")]
+            cur: ast.AST = n
+            tested: set = set()
+            while id(cur) in parents:
+                par = parents[id(cur)]
+                if isinstance(par, ast.If) and any(cur is b for b in par.body + par.orelse):
+                    tested = {x.id for x in ast.walk(par.test) if isinstance(x, ast.Name) and x.id in defs}
+                    if tested:
+                        break
+                cur = par
+            srcs = set()
+            for v in tested:
+                srcs |= defs[v]
+            if not srcs:
+                continue
+            what = f"Error({a}) under a test of {sorted(tested)} (from {sorted(srcs)})"
+            if subj in srcs or subj == "node":
+                ctx.ok("ORIGIN", f, n, what=what)
+            else:
+                ctx.fail("ORIGIN", f, n,
+                         f"the error is raised because of {sorted(tested)} (computed from {sorted(srcs)}), but it is attached to `{a}`: the reported line and column are those of a sibling operand, not of the offending one",
+                         construct=f"Error({a}) for {sorted(srcs)}")
